@@ -111,7 +111,7 @@ _cases = [_case("Control", p, "only") for p in ControlPriority] + \
          [_case("Rule", p, pos) for p in ControlPriority for pos in ("only", "after_a_status_action", "in_the_else_branch")]
 
 CONTRACTS = [
-    Contract("wntr.sim.core:WNTRSimulator._get_valve_controls", P, _cases,
+    Contract("wntr.sim.core:WNTRSimulator._get_valve_controls", P + ["C03"], _cases,
              note="enumerated in full over control class x priority x position of the setting action, on a real model with one valve of each regulated type; "
                   "constructors of the control classes run natively (their contracts: c05_conditions)",
              trusted=["Control / Rule / ControlAction constructors store their arguments (contracts/c05_conditions.py)"]),
